@@ -577,7 +577,12 @@ fn gen_frame(r: &mut Rng, big: bool) -> AbsFrame {
         1 => 1,
         _ => r.below(12),
     };
-    let fields: Vec<(String, String)> = (0..nf).map(|_| (r.pick(KEYS).to_string(), gen_value(r, big))).collect();
+    let fields: Vec<(String, String)> = (0..nf)
+        .map(|_| {
+            let v = if r.chance(1, 40) { crate::typed::long_value(r) } else { gen_value(r, big) };
+            (r.pick(KEYS).to_string(), v)
+        })
+        .collect();
     let binary = if r.chance(1, 4) { Some(gen_payload(r, big)) } else { None };
     let bin_pos = if fields.is_empty() { 0 } else { r.below(fields.len() + 1) };
     AbsFrame { fields, binary, bin_pos }
@@ -593,7 +598,8 @@ fn gen_err(r: &mut Rng) -> AbsErr {
             2 => Some("command_list_end".into()),
             _ => Some("Foo_bar".into()),
         },
-        message: match r.below(6) {
+        message: match r.below(7) {
+            6 => crate::typed::long_value(r),
             0 => String::new(),
             1 => "unknown command \"foo\"".into(),
             2 => "OK".into(),
